@@ -349,15 +349,15 @@ class FlowMixin:
                 return True
         return False
 
-    def refine(self, node, pol, st, fr):
+    def refine(self, node, pol, st, fr, vals=None):
         try:
-            self._refine(node, pol, st, fr)
+            self._refine(node, pol, st, fr, vals)
         except AnalysisError:
             raise
         except Exception as exc:  # refinement is best-effort precision, never soundness
             self.warn("refine failed: %r" % (exc,))
 
-    def _refine(self, node, pol, st, fr):
+    def _refine(self, node, pol, st, fr, vals=None):
         if isinstance(node, (ast.Name, ast.Attribute)):
             cur = self.get_path_value(node, st, fr)
             if cur is None:
@@ -467,6 +467,10 @@ class FlowMixin:
                        ast.GtE: ast.Lt, ast.Is: ast.IsNot, ast.IsNot: ast.Is, ast.In: ast.NotIn, ast.NotIn: ast.In}
                 op = inv[type(op)]()
             lv, rv = self.peek(lhs, st, fr), self.peek(rhs, st, fr)
+            if isinstance(vals, tuple) and len(vals) == 2:
+                # the operands as they were evaluated (covers operands peek() cannot re-evaluate without side effects)
+                lv = vals[0] if lv is None else lv
+                rv = vals[1] if rv is None else rv
             if lv is None or rv is None:
                 return
             lv, rv = norm(lv), norm(rv)
